@@ -281,7 +281,7 @@ fn sweep(ctx: &Ctx) {
 }
 
 pub fn props() -> Vec<(Box<dyn PropDyn>, u32, u32)> {
-    vec![(Box::new(Prop::new("range", case_strategy, check).shrink(400)), 4000, 60000)]
+    vec![(Box::new(Prop::new("range", case_strategy, check).shrink(400)), 12000, 150000)]
 }
 
 pub fn sweeps(ctx: &Ctx) {
